@@ -5620,8 +5620,8 @@ let poll t =
   ebind eget (fun s ->
     match s.e_inp.in_cur with
     | [] -> (match t with
-             | TZero -> eret false
-             | _ -> eret true)
+             | TForever -> eret true
+             | _ -> eret false)
     | _ :: _ -> eret true)
 
 (** val cfg_timeout : config -> ptimeout **)
